@@ -21,6 +21,7 @@ func init() {
 		Rule: "(a) every sequence over {Write(piece), Flush}^<=d (Flush first, repeated Flush, Flush with nothing pending included) for every accelerated flate setting and for gzip/zlib, closed at the end; " +
 			"(b) every string over {a,b} up to length 9 / {a,b,c} up to 6 with a Flush after every prefix length (the bit position a block ends on is a function of the data); " +
 			"(c) for every accelerated setting every data size 1..400 (3000 thorough) of three content kinds: Write, Flush, Write 100 more, Flush (the number of bits pending when the sync marker is written sweeps all its values); " +
+			"(d) Flush at the points where the input buffer is exactly full (after 2W+258 bytes, then every further W+258): every non-empty subset of the first four points, three content kinds; " +
 			"oracle at every Flush()==nil on the bytes emitted so far; non-trivial = at least one Flush happened after at least one byte was written",
 		Assumptions: []string{"compress/flate and the reference inflater stand for 'any conforming inflater'"},
 		Quick:       TierSpec{MaxDev: -1, Shards: 4, ShardDepth: 3, BudgetS: 600},
@@ -84,7 +85,7 @@ func c10Harness(cfg *Cfg) func(x *mc.Exec) {
 	return func(x *mc.Exec) {
 		ki := x.Choose(len(kinds), "cfg")
 		k := kinds[ki]
-		mode := x.Choose(3, "mode")
+		mode := x.Choose(4, "mode")
 		sink := &env.Sink{}
 		r, err := newRun(k, sink)
 		if err != nil {
@@ -151,11 +152,39 @@ func c10Harness(cfg *Cfg) func(x *mc.Exec) {
 			if !flush() {
 				return
 			}
+		case 3:
+			// Flush at the points where the input buffer is exactly full: the first time after T = 2W+258 bytes, then
+			// after every further W+258; every non-empty subset of the first four such points, three content kinds
+			T := k.Fill()
+			Q := T - (T-258)/2
+			pts := []int{T, T + Q, T + 2*Q, T + 3*Q}
+			mask := 1 + x.Choose(15, "flush-at-points")
+			ck := []string{"text", "rand", "r3"}[x.Choose(3, "content")]
+			data := pieces.Make(ck, pts[3]+100, cfg.Seed+3)
+			pos := 0
+			for i, p := range pts {
+				if mask&(1<<uint(i)) == 0 {
+					continue
+				}
+				if _, _, ok := r.do(x, "C10", opWrite, data[pos:p], fmt.Sprintf("W(%s[%d:%d])", ck, pos, p)); !ok {
+					return
+				}
+				pos = p
+				if !flush() {
+					return
+				}
+			}
+			if _, _, ok := r.do(x, "C10", opWrite, data[pos:], fmt.Sprintf("W(%s[%d:])", ck, pos)); !ok {
+				return
+			}
 		case 1:
 			ps, ok := reduced[k.Fill()]
 			if !ok {
-				ps = pieces.Reduced(k.Fill(), cfg.Seed)
-				ps = ps[:len(ps)-1] // no empty piece here
+				for _, p := range pieces.Reduced(k.Fill(), cfg.Seed) {
+					if len(p.Data) > 0 { // no empty piece here
+						ps = append(ps, p)
+					}
+				}
 				reduced[k.Fill()] = ps
 			}
 			d := depth
